@@ -324,6 +324,22 @@ func c12Run(c *Ctx) {
 			mp.Graph.Initializer = []*onnx.TensorProto{g1, tp, g2}
 			c.Count("models-with-the-initializer-between-two-others", 1)
 		}
+		if c.Idx%10 == 8 && len(tp.Dims) > 0 && len(tp.Dims) < 5 {
+			// the weight is also a graph input (a default) whose value-info declares the same number
+			// of elements under another shape: the weight keeps the dims of its TensorProto
+			decl := append([]int64{}, tp.Dims...)
+			if c.R.Bool() {
+				decl = append(decl, 1)
+			} else {
+				decl = append([]int64{1}, decl...)
+			}
+			sh := &onnx.TensorShapeProto{}
+			for _, d := range decl {
+				sh.Dim = append(sh.Dim, &onnx.TensorShapeProto_Dimension{Value: &onnx.TensorShapeProto_Dimension_DimValue{DimValue: d}})
+			}
+			mp.Graph.Input = append(mp.Graph.Input, &onnx.ValueInfoProto{Name: tp.Name, Type: &onnx.TypeProto{Value: &onnx.TypeProto_TensorType{TensorType: &onnx.TypeProto_Tensor{ElemType: tp.DataType, Shape: sh}}}})
+			c.Count("models-whose-default-is-declared-under-another-shape", 1)
+		}
 		before := proto.Clone(mp)
 		load := runProtoModel
 		path := "initializer+Run"
